@@ -49,6 +49,7 @@ type InstJ struct {
 	OriginTL2  bool     `json:"originTL2"`
 	TopLevel   bool     `json:"topLevel"`
 	BoxedOnly  bool     `json:"boxedOnly"`
+	Ann        uint32   `json:"annotations"` // bit i = has k.AllAnnotations()[i]
 	Prim       string   `json:"prim,omitempty"`
 	FalseTag   uint32   `json:"falseTag,omitempty"`
 	TrueTag    uint32   `json:"trueTag,omitempty"`
@@ -150,6 +151,13 @@ func describe(k *pure.Kernel) []InstJ {
 		c := ins.Common()
 		j := InstJ{Idx: i, Name: ins.CanonicalName(), TLName: c.TLName().String(), Tag: c.TLTag(), NatParams: len(c.NatParams()),
 			HasTL2: c.HasTL2(), OriginTL2: c.OriginTL2(), TopLevel: c.IsTopLevel(), BoxedOnly: ins.BoxedOnly()}
+		if kt := c.KernelType(); kt != nil {
+			for bit, a := range k.AllAnnotations() {
+				if kt.HasAnnotation(a) && bit < 32 {
+					j.Ann |= 1 << bit
+				}
+			}
+		}
 		switch t := ins.(type) {
 		case *pure.TypeInstancePrimitive:
 			j.Kind = "prim"
